@@ -611,20 +611,61 @@ func NewResponse(res *http.Response, withBody bool) (*Response, error) {
 			return nil, err
 		}
 
-		br, err := mv.BodyReader(messageview.Decode())
+		body, err := readBody(mv, messageview.Decode())
 		if err != nil {
-			return nil, err
-		}
-
-		body, err := ioutil.ReadAll(br)
-		if err != nil {
-			return nil, err
+			// The body cannot be decoded with the Content-Encoding the response
+			// names (mislabelled or incomplete): log the bytes as they are rather
+			// than fail the exchange.
+			log.Errorf("har: cannot decode response body, logging it undecoded: %v", err)
+			body, err = readBody(mv)
+			if tec := len(res.TransferEncoding); err == nil && tec > 0 && res.TransferEncoding[tec-1] == "chunked" {
+				body, err = ioutil.ReadAll(httputil.NewChunkedReader(bytes.NewReader(body)))
+			}
+			if err != nil {
+				return nil, err
+			}
 		}
 
 		r.Content.Text = body
 		r.Content.Size = int64(len(body))
 	}
 	return r, nil
+}
+
+func multipartParams(body []byte, boundary string) ([]Param, error) {
+	params := []Param{}
+	mpr := multipart.NewReader(bytes.NewReader(body), boundary)
+
+	for {
+		p, err := mpr.NextPart()
+		if err == io.EOF {
+			return params, nil
+		}
+		if err != nil {
+			return nil, err
+		}
+
+		value, err := ioutil.ReadAll(p)
+		p.Close()
+		if err != nil {
+			return nil, err
+		}
+
+		params = append(params, Param{
+			Name:        p.FormName(),
+			Filename:    p.FileName(),
+			ContentType: p.Header.Get("Content-Type"),
+			Value:       string(value),
+		})
+	}
+}
+
+func readBody(mv *messageview.MessageView, opts ...messageview.Option) ([]byte, error) {
+	br, err := mv.BodyReader(opts...)
+	if err != nil {
+		return nil, err
+	}
+	return ioutil.ReadAll(br)
 }
 
 // Export returns the in-memory log.
@@ -777,41 +818,28 @@ func postData(req *http.Request, logBody bool) (*PostData, error) {
 		br = httputil.NewChunkedReader(br)
 	}
 
+	body, err := ioutil.ReadAll(br)
+	if err != nil {
+		return nil, err
+	}
+
+	// A body that does not parse as what its Content-Type announces is logged as
+	// text rather than failing the exchange.
 	switch mt {
 	case "multipart/form-data":
-		mpr := multipart.NewReader(br, ps["boundary"])
-
-		for {
-			p, err := mpr.NextPart()
-			if err == io.EOF {
-				break
-			}
-			if err != nil {
-				return nil, err
-			}
-			defer p.Close()
-
-			body, err := ioutil.ReadAll(p)
-			if err != nil {
-				return nil, err
-			}
-
-			pd.Params = append(pd.Params, Param{
-				Name:        p.FormName(),
-				Filename:    p.FileName(),
-				ContentType: p.Header.Get("Content-Type"),
-				Value:       string(body),
-			})
-		}
-	case "application/x-www-form-urlencoded":
-		body, err := ioutil.ReadAll(br)
+		params, err := multipartParams(body, ps["boundary"])
 		if err != nil {
-			return nil, err
+			log.Errorf("har: cannot parse multipart body, logging it as text: %v", err)
+			pd.Text = string(body)
+			break
 		}
-
+		pd.Params = params
+	case "application/x-www-form-urlencoded":
 		vs, err := url.ParseQuery(string(body))
 		if err != nil {
-			return nil, err
+			log.Errorf("har: cannot parse urlencoded body, logging it as text: %v", err)
+			pd.Text = string(body)
+			break
 		}
 
 		for n, vs := range vs {
@@ -823,11 +851,6 @@ func postData(req *http.Request, logBody bool) (*PostData, error) {
 			}
 		}
 	default:
-		body, err := ioutil.ReadAll(br)
-		if err != nil {
-			return nil, err
-		}
-
 		pd.Text = string(body)
 	}
 
